@@ -14,10 +14,15 @@ Inductive op :=
 | OAdvance (t : N)          (* let time pass until tick t *)
 | OFinish.                  (* the server answers everything from now on, on every connection *)
 
-(* environment of the scheduler: what the scripted server will do *)
-Record env := { avail : nat; closed : bool; dirty : bool; auto : bool; delivered : list nat }.
+(* environment of the scheduler: what the scripted server will do, and the writer's bufio.Writer:
+   [unflushed] are requests written into the buffer and not yet flushed, [armed] says that flushTimerCh is set
+   (writer: "if flushTimerCh == nil && (len(chW) == 0 || len(chR) == cap(chR))" after each write; the flush itself happens in the
+   slow paths of the two selects).  The server only receives — and only answers — flushed requests. *)
+Record env := { avail : nat; closed : bool; dirty : bool; auto : bool; delivered : list nat;
+                unflushed : list nat; armed : bool }.
 
-Definition env0 : env := {| avail := 0; closed := false; dirty := false; auto := false; delivered := [] |}.
+Definition env0 : env :=
+  {| avail := 0; closed := false; dirty := false; auto := false; delivered := []; unflushed := []; armed := false |}.
 
 Definition ids (s : st) : list nat := seq 0 (nitems s).
 
@@ -36,6 +41,8 @@ Definition caller_label (s : st) : option label :=
     end in
   fold_left (fun acc id => match acc with Some l => Some l | None => try_id id end) (ids s) None.
 
+Definition mem (id : nat) (l : list nat) : bool := existsb (Nat.eqb id) l.
+
 Definition next_label (s : st) (e : env) : option (label * env) :=
   match caller_label s with
   | Some l => Some (l, e)
@@ -44,15 +51,17 @@ Definition next_label (s : st) (e : env) : option (label * env) :=
     | Down => match nitems s with
               | O => None
               | _ => Some (LDial true, {| avail := if auto e then 1000%nat else 0%nat; closed := false; dirty := false;
-                                           auto := auto e; delivered := delivered e |})
+                                           auto := auto e; delivered := delivered e; unflushed := []; armed := false |})
               end
     | _ =>
       (* reader *)
       match rd s, chR s with
-      | RHold _, _ =>
+      | RHold id, _ =>
           if closed e then Some (LRRead false, e)
+          else if negb (mem id (delivered e)) then None          (* the server has not received this request *)
           else match avail e with
-               | S k => Some (LRRead true, {| avail := k; closed := closed e; dirty := dirty e; auto := auto e; delivered := delivered e |})
+               | S k => Some (LRRead true, {| avail := k; closed := closed e; dirty := dirty e; auto := auto e;
+                                               delivered := delivered e; unflushed := unflushed e; armed := armed e |})
                | O => None
                end
       | RIdle, _ :: _ => Some (LRPop, e)
@@ -61,31 +70,40 @@ Definition next_label (s : st) (e : env) : option (label * env) :=
     end
   end.
 
-(* writer and teardown steps, tried when callers and reader are quiescent *)
-Definition next_label2 (s : st) (e : env) : option (label * env) :=
+Definition flush (e : env) : env :=
+  {| avail := avail e; closed := closed e; dirty := dirty e; auto := auto e;
+     delivered := if closed e then delivered e else delivered e ++ unflushed e; unflushed := []; armed := false |}.
+
+(* writer and teardown steps, tried when callers and reader are quiescent.  The result label is None for a pure buffer flush. *)
+Definition next_label2 (s : st) (e : env) : option (option label * env) :=
   match md s with
   | Down => None
   | Up =>
       match wr s, chW s with
-      | WHold _, _ => if full s (chR s) then None else Some (LWPush, e)
-      | WIdle, id :: _ =>
+      | WHold _, _ => if full s (chR s) then (if armed e then Some (None, flush e) else None)      (* againChR slow path *)
+                      else Some (Some LWPush, e)
+      | WIdle, id :: rest =>
           let expired := reached (i_dl (items s id)) (now s) in
-          Some (LWPop true,
-                {| avail := avail e; closed := closed e; dirty := if expired then dirty e else closed e; auto := auto e;
-                   delivered := if expired || closed e then delivered e else delivered e ++ [id] |})
-      | WIdle, [] => if closed e && dirty e then Some (LWExit, e) else None
+          if expired then Some (Some (LWPop true), e)
+          else
+            let arm := armed e || (match rest with [] => true | _ => false end) || full s (chR s) in
+            Some (Some (LWPop true),
+                  {| avail := avail e; closed := closed e; dirty := closed e; auto := auto e; delivered := delivered e;
+                     unflushed := unflushed e ++ [id]; armed := arm |})
+      | WIdle, [] => if armed e then Some (None, flush e)                                            (* againChW slow path *)
+                     else if closed e && dirty e then Some (Some LWExit, e) else None
       | WDown, _ => None
       end
   | Stopping =>
       match wr s with
       | WDown =>
           match rd s, chR s with
-          | RIdle, [] => Some (LRExit, e)
-          | RDown, _ :: _ => Some (LDrainOne, e)
-          | RDown, [] => Some (LDrainEnd, e)
+          | RIdle, [] => Some (Some LRExit, e)
+          | RDown, _ :: _ => Some (Some LDrainOne, e)
+          | RDown, [] => Some (Some LDrainEnd, e)
           | _, _ => None
           end
-      | _ => Some (LWExit, e)
+      | _ => Some (Some LWExit, e)
       end
   end.
 
@@ -97,7 +115,8 @@ Fixpoint settle (fuel : nat) (s : st) (e : env) : option (st * env) :=
       | Some (l, e1) => match step s l with Some s1 => settle f s1 e1 | None => None end
       | None =>
           match next_label2 s e with
-          | Some (l, e1) => match step s l with Some s1 => settle f s1 e1 | None => None end
+          | Some (Some l, e1) => match step s l with Some s1 => settle f s1 e1 | None => None end
+          | Some (None, e1) => settle f s e1
           | None => Some (s, e)
           end
       end
@@ -118,10 +137,13 @@ Fixpoint advance (n : nat) (t : N) (s : st) (e : env) : option (st * env) :=
 Definition do_op (s : st) (e : env) (o : op) : option (st * env) :=
   match o with
   | OCall dl => match step s (LCall dl) with Some s1 => settle FUEL s1 e | None => None end
-  | OReply k => settle FUEL s {| avail := avail e + k; closed := closed e; dirty := dirty e; auto := auto e; delivered := delivered e |}
-  | OClose => settle FUEL s {| avail := 0; closed := true; dirty := false; auto := auto e; delivered := delivered e |}
+  | OReply k => settle FUEL s {| avail := avail e + k; closed := closed e; dirty := dirty e; auto := auto e; delivered := delivered e;
+                                 unflushed := unflushed e; armed := armed e |}
+  | OClose => settle FUEL s {| avail := 0; closed := true; dirty := false; auto := auto e; delivered := delivered e;
+                               unflushed := unflushed e; armed := armed e |}
   | OAdvance t => advance 64 t s e
-  | OFinish => settle FUEL s {| avail := if closed e then avail e else 1000%nat; closed := closed e; dirty := dirty e; auto := true; delivered := delivered e |}
+  | OFinish => settle FUEL s {| avail := if closed e then avail e else 1000%nat; closed := closed e; dirty := dirty e; auto := true;
+                                delivered := delivered e; unflushed := unflushed e; armed := armed e |}
   end.
 
 (* run a scenario; collect |chW| + |chR| (= PendingRequests()) after every operation *)
@@ -138,9 +160,9 @@ Fixpoint run_ops (s : st) (e : env) (ops : list op) (pend : list N) : option (st
 Definition class_code (r : result) : N :=
   match r with RResp => 0 | RTimeout => 1 | ROverflow => 2 | RConnErr => 3 end.
 
-(* per call: (class, server saw the request) — 9 = the model says the call has not returned *)
+(* per call: (class, server saw the request) — 8 = the call has not returned *)
 Definition model_results (s : st) (e : env) : list (N * bool) :=
-  map (fun id => (match i_pc (items s id) with PRet r _ => class_code r | _ => 9 end,
+  map (fun id => (match i_pc (items s id) with PRet r _ => class_code r | _ => 8 end,
                   existsb (Nat.eqb id) (delivered e))) (ids s).
 
 Record callobs := { co_deadline : bool; co_class : N; co_seen : bool; co_late : N (* ms after the deadline *); co_echo : bool }.
